@@ -105,3 +105,4 @@ def run(ctx, rep):
         rep.check("C14.count", "Encoder::encode emits bytes only through encode_frame", not direct and len(call_blocks(eb, r"encode::encode_frame$")) == 1, loc_of(eb), str(direct))
     from rules import C09 as _C09
     compose(ctx, rep, "C09", "C14.fin", r"^C09\.(start|order)$")
+    compose(ctx, rep, "C01", "C14.enc", r"^C01\.(corr|zero|slot|wasted)$")
